@@ -82,13 +82,12 @@ __CPROVER_loop_invariant((XMLByte)(fCurCol - COL0) == (XMLByte)(BUFLEN - BUFLEN0
 __CPROVER_loop_invariant(BUFLEN >= __CPROVER_loop_entry(BUFLEN) && BUFLEN >= BUFLEN0 && BUFLEN <= VERIF_BUFLEN_MAX)
 @*/
 
-struct XMLReader nondet_reader(void);
 struct XMLBuffer TOFILL;
 void h_getName_col(void)
 {
-  SELF = nondet_reader();
+  VERIF_INPUT(SELF);
   verif_thrown = 0;
-  _Bool token;
+  _Bool token; VERIF_INPUT(token);
   XMLReader_getName(&TOFILL, token);
   VERIF_CANARY("after call");
 }
